@@ -18,6 +18,10 @@ struct VOnly { @location(0) p: vec4<f32>, @builtin(vertex_index) vi: u32, @locat
 struct VBoth { @location(0) p: vec3<f32>, @location(1) w: f32 }
 struct WorkOnly { k: u32, l: vec2<u32> }
 struct Deep { @location(4) a: f32, @location(5) b: vec2<f32> }
+struct Light { c: vec4<f32> }
+struct Inst { @location(11) m: vec4<f32> }
+struct Scene { first: Inst, key: Light, fill: Light }
+@group(0) @binding(5) var<storage, read> scene: Scene;
 struct HB { @builtin(instance_index) ii: u32, @location(6) p: vec4<f32>, @builtin(vertex_index) vi: u32, @location(7) q: vec2<f32>, @location(8) r: f32 }
 @group(0) @binding(4) var<storage, read> hb: array<HB, 2>;
 @group(0) @binding(3) var<storage, read> grid: array<array<Deep, 2>, 3>;
@@ -25,10 +29,11 @@ struct HB { @builtin(instance_index) ii: u32, @location(6) p: vec4<f32>, @builti
 @group(0) @binding(1) var<uniform> uni: Uni;
 @group(0) @binding(2) var<uniform> vboth: VBoth;
 var<workgroup> wg: WorkOnly;
-@vertex fn vs(a: VOnly, b: VBoth, c: Deep, d: HB) -> @builtin(position) vec4<f32> { return a.p; }
+@vertex fn vs(a: VOnly, b: VBoth, c: Deep, d: HB, e: Inst) -> @builtin(position) vec4<f32> { return a.p; }
 @compute @workgroup_size(1) fn cs() { wg.k = 1u; }
 '''
-HOST_SHAREABLE = {'Inner': True, 'Host': True, 'Uni': True, 'VOnly': False, 'VBoth': True, 'WorkOnly': True, 'Deep': True, 'HB': True}
+HOST_SHAREABLE = {'Inner': True, 'Host': True, 'Uni': True, 'VOnly': False, 'VBoth': True, 'WorkOnly': True, 'Deep': True, 'HB': True,
+                  'Light': True, 'Inst': True, 'Scene': True}      # Inst: entry argument AND nested next to a struct that is met twice
 
 
 def run(ctx):
